@@ -25,6 +25,7 @@ import (
 type VerifRow struct {
 	Time   int64
 	Tags   []int64
+	STags  []string // stag[j] = STags[j] for j < len(STags): the unmapped string value of tag j ("" = none)
 	SKey   string
 	Fields [6]float64
 }
@@ -47,6 +48,7 @@ type VerifTableReq struct {
 type VerifOutRow struct {
 	Time int64
 	Tags []int64 // first NTags numeric tags of the row key
+	STags []string // their unmapped string values
 	SKey string  // stag[StringTopTagIndexV3] of the row key
 	Rest bool    // true if any other part of the key (other tags/stags, shardNum, stagCount) is non-zero
 	Data []float64
@@ -58,6 +60,9 @@ func verifToRow(r VerifRow) tsSelectRow {
 	row.time = r.Time
 	for j, v := range r.Tags {
 		row.tag[j] = v
+	}
+	for j, v := range r.STags {
+		row.stag[j] = v
 	}
 	row.stag[format.StringTopTagIndexV3] = r.SKey
 	row.count, row.sum, row.min, row.max, row.cardinality = r.Fields[0], r.Fields[1], r.Fields[2], r.Fields[3], r.Fields[4]
@@ -83,6 +88,7 @@ func verifFromRow(row *tsSelectRow, ntags int) VerifRow {
 	r := VerifRow{Time: row.time, SKey: row.stag[format.StringTopTagIndexV3]}
 	for j := 0; j < ntags; j++ {
 		r.Tags = append(r.Tags, row.tag[j])
+		r.STags = append(r.STags, row.stag[j])
 	}
 	r.Fields = [6]float64{row.count, row.sum, row.min, row.max, row.cardinality, 0}
 	return r
@@ -178,10 +184,12 @@ func VerifGetTable(req VerifTableReq) (rows []VerifOutRow, hasMore bool, err err
 		o := VerifOutRow{Time: out[i].Time, SKey: out[i].row.stag[format.StringTopTagIndexV3], Repr: out[i].rowRepr}
 		for j := 0; j < req.NTags; j++ {
 			o.Tags = append(o.Tags, out[i].row.tag[j])
+			o.STags = append(o.STags, out[i].row.stag[j])
 		}
 		probe := out[i].row.tsTags
 		for j := 0; j < req.NTags; j++ {
 			probe.tag[j] = 0
+			probe.stag[j] = ""
 		}
 		probe.stag[format.StringTopTagIndexV3] = ""
 		o.Rest = probe != tsTags{}
